@@ -1,9 +1,10 @@
 \* Generated by tools/checks/limits.py (render_cfg) from the limits table of the pinned tree, seed 1.
 \* The check regenerates this text at run time from `vh limits table`, so a changed table is followed.
+\* (the check runs this as five TLC runs over subsets of Fams, in parallel)
 CONSTANTS
     Impl = "intended"
     Tier = "thorough"
-    Fams = {"shapes", "single", "dep", "names", "totals", "pairs", "cross", "mix"}
+    Fams = {"shapes", "single", "dep", "names", "totals", "pairs", "cross", "mix", "update"}
     Denom = "uakt"
     DepositDenom = "uakt"
     OtherDenom = "uatom"
@@ -28,6 +29,7 @@ CONSTANTS
     VersionLen = 32
     MinDeposit = 5000000
     Funds = 1495000000
+    BaseDSeq = 7
     MidCPU = 3848
     MidMem = 486
     MidSto = 487925
